@@ -806,7 +806,10 @@ def history_steps(draw, lo, hi):
             "ell": draw(st.sampled_from(HIST_ELLS)),
             "op": draw(st.sampled_from(HIST_OPS)),
             "as": draw(st.sampled_from(["tuple", "tuple", "list", "array"])),
-            "e": draw(st.one_of(st.floats(0.0, 0.3), st.sampled_from(
+            # exactly spherical or clearly eccentric: ellipsoid2d takes
+            # sqrt(1 - (r_p/a)^2), which is NaN/noise for 0 < e < ~1e-7 (not
+            # a claim of this property, see the report)
+            "e": draw(st.one_of(st.floats(1e-3, 0.3), st.sampled_from(
                 [0.0, 0.0818191908426, 0.1083]))),
             "scale": draw(st.sampled_from([0.5, 2.0, 1.001])),
             "other": draw(st.sampled_from(ELLIPSOIDS)),
@@ -817,8 +820,9 @@ def history_steps(draw, lo, hi):
             "az": draw(st.one_of(st.floats(0.0, 360.0),
                                  st.sampled_from([90.0, 90.0, 0.0, 270.0]))),
             "lon": draw(st.floats(-180.0, 180.0)),
+            # hits (near nadir) and, between the two limb angles, misses
             "za": draw(st.one_of(st.floats(150.0, 179.0),
-                                 st.floats(1.0, 60.0))),
+                                 st.floats(1.0, 179.0))),
             "alt": draw(st.sampled_from([0.0, 0.0, 1e4, 3e4])),
             "h": draw(st.sampled_from([0.0, -1e4, 1e5, 1e6, 777.7])),
             "probe": draw(st.booleans()),
